@@ -180,6 +180,16 @@ def quit_scripts(rng, n):
                     for tq in (50, 60):
                         out.append(quit_script("q%05d" % k, [st], [[kc, kc, kc]], manner, grace, tq, 40, "quit-grid"))
                         k += 1
+    # a graceful stop / try-restart with a long grace period that is over early (the command exits on
+    # the signal) or still pending when the quit comes: the quit owes nothing to a grace period that
+    # is no longer in effect
+    for st in ("armed_restart", "armed_stop"):
+        for kc in KID_CLASSES:
+            for manner in (0, 1):
+                for grace in ((0,) if manner == 0 else (0, 30)):
+                    for tq in (80, 120, 200):
+                        out.append(quit_script("q%05d" % k, [st], [[kc, kc, kc]], manner, grace, tq, 100, "quit-after-grace"))
+                        k += 1
     for _ in range(n):
         nj = rng.randrange(1, 4)
         states = [rng.choice(JOB_STATES) for _ in range(nj)]
